@@ -19,9 +19,12 @@ VERIF = os.path.dirname(os.path.dirname(os.path.abspath(__file__)))
 REPO = os.environ.get("VERIF_REPO", "/repo")
 LEAN = os.path.join(VERIF, "lean")
 HARNESS = os.path.join(VERIF, "harness")
-DRIVER = os.path.join(LEAN, ".lake", "build", "bin", "gvdriver")
 RUNNER = os.path.join(HARNESS, "js", "runner.js")
 GVH = os.path.join(HARNESS, "bin", "gvh")
+
+
+def gvh_path(name="gvh"):
+    return os.path.join(HARNESS, "bin", name)
 ALLOWED_AXIOMS = {"propext", "Classical.choice", "Quot.sound"}
 FORBIDDEN = re.compile(r"\bsorry\b|\badmit\b|^\s*axiom\s|native_decide|bv_decide|implemented_by|\bunsafe\s|maxHeartbeats\s+0", re.M)
 
@@ -166,12 +169,14 @@ class ProofResult:
         self.leanchecker = None
 
 
-def check_proofs(module, theorems, tier, extra_targets=()):
+def check_proofs(pid, theorems, tier, extra_targets=(), module=None):
     """lake build module (+driver), forbid sorry & friends, audit axioms of `theorems`."""
+    module = module or "GV.Props.%s" % pid
+    theorems = [t if t.startswith("GV.") else "%s.%s" % (module, t) for t in theorems]
     r = ProofResult()
     r.obligations = list(theorems)
     r.forbidden = forbidden_scan()
-    ok, blog = lake_build([module, "gvdriver"] + list(extra_targets))
+    ok, blog = lake_build([module, "gvdriver_%s" % pid.lower()] + list(extra_targets))
     r.build_ok = ok
     r.build_log = blog[-6000:]
     if "declaration uses `sorry`" in blog or "declaration uses 'sorry'" in blog:
@@ -205,8 +210,12 @@ def check_proofs(module, theorems, tier, extra_targets=()):
 # Driver / runner plumbing
 # --------------------------------------------------------------------------------------
 
-def run_driver(lines):
-    p = subprocess.run([DRIVER], input="\n".join(lines) + "\n", capture_output=True, text=True, timeout=3600)
+def driver_path(pid):
+    return os.path.join(LEAN, ".lake", "build", "bin", "gvdriver_%s" % pid.lower())
+
+
+def run_driver(pid, lines):
+    p = subprocess.run([driver_path(pid)], input="\n".join(lines) + "\n", capture_output=True, text=True, timeout=3600)
     if p.returncode != 0:
         raise RuntimeError("gvdriver failed: " + p.stderr[-2000:])
     out = p.stdout.split("\n")
@@ -230,29 +239,32 @@ def run_node(lines, repo=None, timeout=3600):
     return out
 
 
-def build_gvh():
-    """(Re)build the Go harness against /repo's working tree with the verif tag."""
+def build_gvh(name="gvh"):
+    """(Re)build a Go harness binary (harness/cmd/<name>) against /repo's working tree with the verif tag.
+    Raises on failure: a harness that does not build is a harness failure, never a VIOLATION."""
     os.makedirs(os.path.join(HARNESS, "bin"), exist_ok=True)
-    with Lock("gvh"):
+    with Lock("gobuild"):
         gosum = os.path.join(REPO, "go.sum")
         if os.path.exists(gosum):
             shutil.copyfile(gosum, os.path.join(HARNESS, "go.sum"))
-        p = sh(["go", "build", "-tags", "verif", "-o", GVH, "./cmd/gvh"], cwd=HARNESS, timeout=1800)
-    return p.returncode == 0, p.stdout + p.stderr
+        p = sh(["go", "build", "-tags", "verif", "-o", gvh_path(name), "./cmd/" + name], cwd=HARNESS, timeout=1800)
+    if p.returncode != 0:
+        raise RuntimeError("go build of harness %s failed:\n%s" % (name, (p.stdout + p.stderr)[-4000:]))
+    return gvh_path(name)
 
 
-def run_gvh(args, lines=None, timeout=3600, extra_env=None):
+def run_gvh(args, lines=None, timeout=3600, extra_env=None, name="gvh"):
     e = env()
     e["VERIF_REPO"] = REPO
     if extra_env:
         e.update(extra_env)
-    p = subprocess.run([GVH] + list(args), input=None if lines is None else "\n".join(lines) + "\n",
+    p = subprocess.run([gvh_path(name)] + list(args), input=None if lines is None else "\n".join(lines) + "\n",
                        capture_output=True, text=True, timeout=timeout, env=e)
     return p
 
 
-def run_gvh_lines(args, lines, timeout=3600, extra_env=None):
-    p = run_gvh(args, lines, timeout, extra_env)
+def run_gvh_lines(args, lines, timeout=3600, extra_env=None, name="gvh"):
+    p = run_gvh(args, lines, timeout, extra_env, name)
     if p.returncode != 0:
         raise RuntimeError("gvh %s failed: %s" % (args, p.stderr[-3000:]))
     out = p.stdout.split("\n")
@@ -295,7 +307,8 @@ class Check:
         self.samples = []
         self.rule = ""
         self.histogram = {}
-        self.mismatches = []      # dicts: {tie, op, impl, model, signature}
+        self.mismatches = []      # property failures: {tie, op, impl, model, spec, signature}
+        self.tie_breaks = {}      # tie -> [{op, impl, model}]: model/code disagreements
         self.broken = []          # proof obligations / I-ties that no longer check: (name, detail)
         self.assumptions = []
         self.trusted = []
@@ -308,24 +321,56 @@ class Check:
     def count(self, key, n=1):
         self.histogram[key] = self.histogram.get(key, 0) + n
 
-    def compare(self, tie, ops, impl, model, signature=None, nontrivial=None, kind=None):
-        """Line-by-line comparison of implementation and model answers."""
-        assert len(ops) == len(impl) == len(model)
-        for i, (o, a, b) in enumerate(zip(ops, impl, model)):
+    def compare(self, tie, ops, impl, model, spec=None, signature=None, nontrivial=None, kind=None):
+        """Three-way, line-by-line comparison.
+        impl  = answers of the real code, model = answers of the Lean model (a transcription of the code),
+        spec  = answers of the Lean specification (what the property demands). When `spec` is None the model
+        itself is the oracle: only do that when `model = spec` is one of the proved obligations.
+          impl != spec  -> the property fails on this input (VIOLATION with the input as replay, unless the
+                           signature is a listed known finding)
+          impl != model -> the correspondence `tie` is broken (model no longer describes the code); if no failing
+                           input is found anywhere the run ends with VIOLATION ... no-failing-input-found.
+        signature(op, impl, spec) -> canonical signature string of a failing input, matched against known findings."""
+        assert len(ops) == len(impl) == len(model), (len(ops), len(impl), len(model))
+        if spec is not None:
+            assert len(spec) == len(ops)
+        for i, o in enumerate(ops):
+            a, b = impl[i], model[i]
+            c = spec[i] if spec is not None else b
             self.evaluations += 1
             if kind:
-                self.count(kind(o, b))
-            if nontrivial is None or nontrivial(o, b):
-                self.distinct.add(hashlib.sha1(o.encode()).digest()[:8])
+                self.count(kind(o, c))
+            if nontrivial is None or nontrivial(o, c):
+                self.distinct.add(hashlib.sha1((tie + "|" + o).encode()).digest()[:8])
+            if a != c:
+                sig = signature(o, a, c) if signature else None
+                self.mismatches.append({"tie": tie, "op": o, "impl": a, "model": b, "spec": c, "signature": sig})
             if a != b:
-                sig = signature(o, a, b) if signature else None
-                self.mismatches.append({"tie": tie, "op": o, "impl": a, "model": b, "signature": sig})
+                self.tie_breaks.setdefault(tie, []).append({"op": o, "impl": a, "model": b})
         if ops and len(self.samples) < 12:
             for j in sorted(set([0, len(ops) // 3, (2 * len(ops)) // 3, len(ops) - 1])):
-                self.samples.append({"tie": tie, "op": ops[j], "impl": impl[j], "model": model[j]})
+                smp = {"tie": tie, "op": ops[j][:400], "impl": impl[j][:400], "model": model[j][:400]}
+                if spec is not None:
+                    smp["spec"] = spec[j][:400]
+                self.samples.append(smp)
 
-    def add_mismatch(self, tie, op, impl, model, signature=None):
-        self.mismatches.append({"tie": tie, "op": op, "impl": impl, "model": model, "signature": signature})
+    def add_mismatch(self, tie, op, impl, spec, signature=None, model=None):
+        """A property failure found by a custom oracle (e.g. GopherJS output vs native Go output)."""
+        self.mismatches.append({"tie": tie, "op": op, "impl": impl, "model": model, "spec": spec, "signature": signature})
+
+    def add_tie_break(self, tie, op, impl, model):
+        """The model (or an extracted fact) no longer matches the code at `op`; not by itself a property failure."""
+        self.tie_breaks.setdefault(tie, []).append({"op": op, "impl": impl, "model": model})
+
+    def add_case(self, tie, op, nontrivial=True, kindkey=None, sample=None):
+        """Account for one explored case of a custom tie (programs, histories, ...)."""
+        self.evaluations += 1
+        if nontrivial:
+            self.distinct.add(hashlib.sha1((tie + "|" + op).encode()).digest()[:8])
+        if kindkey:
+            self.count(kindkey)
+        if sample is not None and len(self.samples) < 12:
+            self.samples.append(sample)
 
     def known_match(self, sig):
         if sig is None:
@@ -346,6 +391,11 @@ class Check:
             else:
                 violations.append(m)
         proof_failed = list(self.proof.failed) if self.proof else []
+        for tie, lst in sorted(self.tie_breaks.items()):
+            # a tie break whose inputs are all accounted for by known findings (model mirrors a recorded defect
+            # differently) still counts: the model must describe the code. Report it as a broken correspondence.
+            self.broken.append(("correspondence:" + tie, "%d disagreement(s) between the Lean model and the implementation; first: %s" % (
+                len(lst), json.dumps(lst[0])[:600])))
         for k, (kf, m) in sorted(self.known_seen.items()):
             print("KNOWN-FINDING: property=%s %s" % (self.pid, kf["what_fails"]))
         exit_code = 0
@@ -356,6 +406,7 @@ class Check:
             rep = {
                 "property": self.pid, "tier": self.tier, "seed": self.seed,
                 "failing_inputs": violations[:20],
+                "correspondence_breaks": {t: l[:10] for t, l in self.tie_breaks.items()},
                 "broken_obligations": [{"name": n, "detail": d} for n, d in (proof_failed + self.broken)],
                 "replay_cmd": "python3 run.py %s --replay %s" % (self.pid, replay_path),
                 "notes": self.notes,
